@@ -320,6 +320,9 @@ func (e *absExec) exec(f *ssa.Function, argSym string, depth int, impl *replImpl
 				switch {
 				case name == "Len" && e.c.isLogCall(x, "Len"):
 					val[x] = "logLen"
+				case e.c.isLenCacheRead(x):
+					// a remembered copy of the log's length (R6 answers for its freshness)
+					val[x] = "logLen"
 				case name == "GetMax" && e.c.isMethodOn(x, "GetMax", ifaceReplInfo):
 					val[x] = e.st.max
 				case name == "GetProgress" && e.c.isMethodOn(x, "GetProgress", ifaceReplInfo):
@@ -443,7 +446,14 @@ func (e *absExec) exec(f *ssa.Function, argSym string, depth int, impl *replImpl
 				}
 			case *ssa.Jump:
 				next = blk.Succs[0]
+			case *ssa.Convert:
+				if s0, ok := symOf(x.X); ok && isIntType(x.Type()) {
+					val[x] = s0
+				}
 			case *ssa.UnOp:
+				if x.Op == token.MUL && e.c.isLenCacheRead(x) {
+					val[x] = "logLen"
+				}
 				// a load of a captured integer variable
 				if x.Op == token.MUL {
 					if fv, ok := x.X.(*ssa.FreeVar); ok {
